@@ -20,11 +20,19 @@ SubjAlpha(src) ==
                       ELSE LET c == CHOOSE y \in S : \A z \in S : y <= z IN {c} \cup Pick(S \ {c}, n - 1)
     IN  Pick(L, 4)
 
+\* subjects for the case-insensitive regular expressions of the regex transformation
+SubjAlphaCI(src) ==
+    LET L == Literals(ParseStr(src)) \ {97, 65, 98}
+        RECURSIVE Pick(_, _)
+        Pick(S, n) == IF S = {} \/ n = 0 THEN {}
+                      ELSE LET c == CHOOSE y \in S : \A z \in S : y <= z IN {c} \cup Pick(S \ {c}, n - 1)
+    IN  {97, 65, 98} \cup Pick(L, 2)
+
 StrCases(g) ==
     LET G == Groups[g]
         Srcs == SeqsUpTo(G.alpha, MaxLen) \cup
                 UNION {RandomSubset(NRandom \div 3, [1..n -> G.alpha]) : n \in {MaxLen + 1, MaxLen + 2, MaxLen + 4}}
-    IN  {[kind |-> "str", g |-> g, ks |-> G.ks, src |-> s, subj |-> SetToSeq(SubjAlpha(s))] : s \in Srcs}
+    IN  {[kind |-> "str", g |-> g, ks |-> G.ks, src |-> s, subj |-> SetToSeq(SubjAlpha(s)), subjci |-> SetToSeq(SubjAlphaCI(s))] : s \in Srcs}
 
 FieldCases ==
     {[kind |-> "field", name |-> n] :
